@@ -169,6 +169,35 @@ func c20InitOne(svcName, filePath string) {
 				return vanguard.NewServiceWithSchema(sd, h, append(append([]vanguard.ServiceOption{}, opts...), extra...)...), nil
 			}
 		}
+		// a descriptor set with its full import closure, rebuilt from scratch (what a
+		// FileDescriptorSet from protoc / buf, or server reflection, gives): every imported
+		// type, incl. google.api.HttpBody and the well-known types, is a fresh descriptor
+		var set descriptorpb.FileDescriptorSet
+		seenFile := map[string]bool{}
+		var addFile func(fd protoreflect.FileDescriptor)
+		addFile = func(fd protoreflect.FileDescriptor) {
+			if seenFile[fd.Path()] {
+				return
+			}
+			seenFile[fd.Path()] = true
+			imps := fd.Imports()
+			for i := 0; i < imps.Len(); i++ {
+				addFile(imps.Get(i).FileDescriptor)
+			}
+			set.File = append(set.File, protodesc.ToFileDescriptorProto(fd))
+		}
+		addFile(gfd)
+		closure, err := protodesc.NewFiles(&set)
+		if err != nil {
+			c20InitErr = err
+			return
+		}
+		cfd, err := closure.FindFileByPath(filePath)
+		if err != nil {
+			c20InitErr = err
+			return
+		}
+		c20Closure := cfd.Services().ByName(short)
 		c20VariantsBy[svcName] = []c20Variant{
 			{"generated (NewService by name)", func(h http.Handler, opts ...vanguard.ServiceOption) (*vanguard.Service, error) {
 				return vanguard.NewService(svcName, h, opts...), nil
@@ -179,6 +208,8 @@ func c20InitOne(svcName, filePath string) {
 			{"fresh copy, resolver that knows request types only", withSchema(c20Fresh, vanguard.WithTypeResolver(requestOnlyResolver{}))},
 			{"dynamically typed google.api.http options", withSchema(c20DynOpts)},
 			{"global-types resolver for a fresh copy", withSchema(c20Fresh, vanguard.WithTypeResolver(protoregistry.GlobalTypes))},
+			{"descriptor set with its full import closure rebuilt", withSchema(c20Closure)},
+			{"rebuilt closure, resolver that knows nothing", withSchema(c20Closure, vanguard.WithTypeResolver(emptyResolver{}))},
 		}
 	}()
 }
@@ -450,7 +481,7 @@ func init() {
 		ID:    "C20",
 		Level: "exploration",
 		Rule: "A corpus of 32 requests against vanguard.test.v1.LibraryService and ContentService (HttpBody bodies and responses, client / server / bidi streams) (16 REST requests over all 13 bindings incl. nested / multi-segment variables, verbs, repeated and scalar bodies, response_body, escapes, an ill-typed parameter, wrong method, unknown route; RPC requests in gRPC, gRPC-Web, Connect POST and GET incl. a 405 and an unknown method) x 4 target configurations " +
-			"is run against 7 registrations of the same schema (generated code by name; fresh protodesc copy; copy without parent file; resolver that knows nothing; resolver that knows only request types; dynamically typed google.api.http options; GlobalTypes resolver for a fresh copy) and against vanguardgrpc.NewTranscoder vs NewService-by-name over one grpc.Server; " +
+			"is run against 9 registrations of the same schema (generated code by name; fresh protodesc copy; descriptor set with its full import closure rebuilt (fresh descriptors for every imported type), also with a resolver that knows nothing; copy without parent file; resolver that knows nothing; resolver that knows only request types; dynamically typed google.api.http options; GlobalTypes resolver for a fresh copy) and against vanguardgrpc.NewTranscoder vs NewService-by-name over one grpc.Server; " +
 			"every variant's client- and backend-side semantic outcome must equal the generated-code variant's. Non-trivial = (request, target, variant) whose message types resolve to a different Go type than in the baseline.",
 		Assume:    []string{"messages are compared after decoding against the generated descriptors"},
 		Scenarios: []Scenario{{Name: "variants", Fn: c20Scenario, QuickBound: 0, ThoroughBound: 0}},
